@@ -146,7 +146,7 @@ def run(tier, seed, scale=1.0):
     # ---- MSan replay of the deterministic workload on fresh case indices (thorough only)
     if not quick:
         try:
-            spm = private_spec("legacy", "total", seed, opts={"corpus": CORPUS, "nodup_blank_rate": 0}, flavor="msan")
+            spm = private_spec("legacy", "total", seed, opts={"corpus": CORPUS}, flavor="msan")
             nm = int(80000 * scale)
             rm = vdriver.explore(spm, nm, chunk=max(50, min(400, nm // 64 or 50)), chunk_timeout=900, first=50000000,
                                  stop_after_violations=2000)
